@@ -40,7 +40,31 @@ def ingest_rule(F, res, ingest_fn):
                     any(r[0] == 'call' and ('from_utf8' in r[1]) for r in roots)
                 primary = from_input and not any(r[0] == 'param' and r[1] == 1 and 'raw_line' in r[2] for r in roots)
 
+                def helper_kinds(rs, depth=0):
+                    """kinds of guard ('cr' / 'len') established inside local bool predicates called in the condition (extracted guards)"""
+                    kinds = set()
+                    if depth > 2:
+                        return kinds
+                    for r in rs:
+                        if r[0] != 'call':
+                            continue
+                        q = r[1] if r[1] in F.fn_bodies else (r[4].get('resolved') or '')
+                        if q in F.fn_bodies and F.bodies[q]['mir']['locals'][0] == 'bool':
+                            for blk in F.blocks(q):
+                                for st in blk['s']:
+                                    if st[0] == 'assign' and st[2][0] == 'binop' and st[2][1] in ('Gt', 'Ge', 'Lt', 'Le'):
+                                        for o in st[2][2:4]:
+                                            if any(x[0] == 'param' and x[2] and x[2][-1] == 'max_line_length' for x in F.trace(q, o)):
+                                                kinds.add('len')
+                            for _, c2 in F.calls(q):
+                                if callee_of(c2).endswith(('::rfind', '::find')) and any(v == ('char', '\r') for a in c2['args'] for v in F.operand_literals(q, a)):
+                                    kinds.add('cr')
+                                kinds |= helper_kinds([('call', callee_of(c2), 0, (), c2)], depth + 1)
+                    return kinds
+
                 def cr_or_len(rs):
+                    if helper_kinds(rs):
+                        return True
                     has_cr = any(r[0] == 'call' and r[1].endswith(('::rfind', '::find')) and
                                  any(v == ('char', '\r') for a in r[4]['args'] for v in F.operand_literals(fn, a)) for r in rs)
                     has_len = any(r[0] == 'binop' and r[1] in ('Gt', 'Ge', 'Lt', 'Le') for r in rs) and \
@@ -52,11 +76,11 @@ def ingest_rule(F, res, ingest_fn):
                 samples.append('%s bb%d %s' % (fn.split('::')[-1], bb, 'primary-store' if primary else ('guarded' if guarded else 'UNGUARDED')))
                 # which guard? the CR branch may only splice the CR out (both halves of the line kept); in-place cuts belong to the length branch
                 def is_cr(rs):
-                    return any(r[0] == 'call' and r[1].endswith(('::rfind', '::find')) for r in rs)
+                    return any(r[0] == 'call' and r[1].endswith(('::rfind', '::find')) for r in rs) or 'cr' in helper_kinds(rs)
                 under_cr = any(Ru.edge_dominates(F, fn, sb, tgt, bb) for (sb, op, arms, other) in Ru.switches(F, fn) if is_cr(F.trace(fn, op))
                                for tgt in set([b for _, b in arms] + [other]))
                 under_len = any(Ru.edge_dominates(F, fn, sb, tgt, bb) for (sb, op, arms, other) in Ru.switches(F, fn)
-                                if any(r[0] == 'param' and r[2] and r[2][-1] == 'max_line_length' for r in F.trace(fn, op))
+                                if any(r[0] == 'param' and r[2] and r[2][-1] == 'max_line_length' for r in F.trace(fn, op)) or 'len' in helper_kinds(F.trace(fn, op))
                                 for tgt in set([b for _, b in arms] + [other]))
                 if under_cr and not under_len and not primary:
                     n_idx = sum(1 for r in roots if r[0] == 'call' and r[1].endswith('::index'))
